@@ -281,11 +281,14 @@ pub struct XlsbSheet {
     pub noise: Option<u64>,
     /// complete bytes of the sheet part, replacing everything above (the C03 harness lets the Lean encoder write it)
     pub raw: Option<Vec<u8>>,
+    /// the BrtBundleSh carries a NULL relationship id (string length 0xFFFFFFFF) and the sheet has no part and no
+    /// relationship: the reader skips such an entry entirely (used by C07)
+    pub no_rel: bool,
 }
 
 impl XlsbSheet {
     pub fn new(name: &str) -> XlsbSheet {
-        XlsbSheet { name: name.into(), state: 0, kind: SheetKind::Work, cells: BTreeMap::new(), dims: None, noise: None, raw: None }
+        XlsbSheet { name: name.into(), state: 0, kind: SheetKind::Work, cells: BTreeMap::new(), dims: None, noise: None, raw: None, no_rel: false }
     }
     pub fn set(&mut self, row: u32, col: u32, val: BVal) -> &mut BCell {
         self.cells.insert((row, col), BCell::new(val));
@@ -465,7 +468,11 @@ impl XlsbBook {
         for (i, s) in self.sheets.iter().enumerate() {
             let mut p = s.state.to_le_bytes().to_vec();
             p.extend_from_slice(&(i as u32 + 1).to_le_bytes());
-            p.extend_from_slice(&wide_str(&format!("rId{}", i + 1)));
+            if s.no_rel {
+                p.extend_from_slice(&0xFFFF_FFFFu32.to_le_bytes());
+            } else {
+                p.extend_from_slice(&wide_str(&format!("rId{}", i + 1)));
+            }
             p.extend_from_slice(&wide_str(&s.name));
             fr.rec(&mut o, 0x009C, &p); // BrtBundleSh
         }
@@ -499,6 +506,9 @@ impl XlsbBook {
     pub fn workbook_rels(&self) -> String {
         let mut s = String::from("<?xml version=\"1.0\" encoding=\"UTF-8\" standalone=\"yes\"?>\n<Relationships xmlns=\"http://schemas.openxmlformats.org/package/2006/relationships\">");
         for i in 0..self.sheets.len() {
+            if self.sheets[i].no_rel {
+                continue;
+            }
             s.push_str(&format!(
                 "<Relationship Id=\"rId{}\" Type=\"http://schemas.openxmlformats.org/officeDocument/2006/relationships/worksheet\" Target=\"{}\"/>",
                 i + 1,
@@ -574,6 +584,9 @@ impl XlsbBook {
             v.push(("xl/sharedStrings.bin".into(), self.sst_part(s)));
         }
         for i in 0..self.sheets.len() {
+            if self.sheets[i].no_rel {
+                continue;
+            }
             v.push((format!("xl/{}", self.sheet_path(i)), self.sheet_part(i)));
         }
         if let Some(b) = &self.vba {
